@@ -145,6 +145,8 @@ func crashHistory(rng *rand.Rand, out *Out) {
 	// 0 steps: the operation under test is the very FIRST commit of an empty store (what chain.Init does with the
 	// genesis momentum)
 	steps := rng.Intn(8)
+	var lastC *commit // the top commit of the prefix (what a rollback takes off)
+	var lastOps []pop
 	for i := 0; i < steps; i++ {
 		prev := r.frontier()
 		c := &commit{prev: prev, id: types.HashHeight{Hash: freshHash(rng), Height: prev.Height + 1}, data: genVal(rng)}
@@ -153,6 +155,7 @@ func crashHistory(rng *rand.Rand, out *Out) {
 			panic(err)
 		}
 		r.add(c, ops)
+		lastC, lastOps = c, ops
 	}
 	// the operation under test
 	isPop := rng.Intn(3) == 0 && steps > 0
@@ -292,6 +295,25 @@ func crashHistory(rng *rand.Rand, out *Out) {
 				e2 := safe(func() error { return re.m.Pop() })
 				back := observe(re.m, maxH)
 				out.Oracle(e2 == nil && back == before, "crash-then-rollback-restores", M{"crash_after": k, "got": back, "want": before})
+				// ... and the rolled-back commit delivered AGAIN (same identifier, same patch; now and then after another
+				// restart) applies again: the node that met the crash and the reorganisation ends where the others are
+				if e2 == nil && kk%3 == 0 {
+					if kk%2 == 0 {
+						re.m.Stop()
+						if e := safe(func() error { rem = db.NewLevelDBManager(img); return nil }); e == nil && rem != nil {
+							re.m = rem
+						}
+					}
+					e3 := safe(func() error { return re.m.Add(&tx{c: c, p: mkPatch(ops)}) })
+					again := observe(re.m, maxH)
+					out.Oracle(e3 == nil && again == after, "redelivery-after-rollback-applies-again", M{"crash_after": k, "restart_between": kk%2 == 0, "got": again, "want": after, "err": fmt.Sprint(e3)})
+				}
+			}
+			if isPop && e == nil && lastC != nil && kk%3 == 0 {
+				// the commit the rollback took off, delivered again
+				e3 := safe(func() error { return re.m.Add(&tx{c: lastC, p: mkPatch(lastOps)}) })
+				again := observe(re.m, maxH)
+				out.Oracle(e3 == nil && again == before, "redelivery-after-rollback-applies-again", M{"crash_after": k, "rolled_back_by": "the operation under test", "got": again, "want": before, "err": fmt.Sprint(e3)})
 			}
 		}
 		re.close()
